@@ -106,9 +106,9 @@ func (w *dnsWorld) checkReply(op *dnsOp, m *dnsmessage.Msg) {
 			dnsmessage.TypeToString[op.qtype], op.id, dnsQuestionString(m), w.describeForeign(foreign))
 		return
 	}
-	for _, rr := range m.Answer {
+	if rr := dnsRecordsBelong(m.Answer, op.qname, op.qtype); rr != nil {
 		h := rr.Header()
-		if !strings.EqualFold(h.Name, op.qname) || h.Rrtype != op.qtype {
+		{
 			cls := w.classifyForeign(op.name, op.qtype, foreign)
 			s.Failf("c09-foreign-answer-delivered@"+cls, "client c%d asked %s %s and received a reply with the right question but a record %s %s%s", op.cli, op.qname,
 				dnsmessage.TypeToString[op.qtype], h.Name, dnsmessage.TypeToString[h.Rrtype], w.describeForeign(foreign))
